@@ -661,7 +661,15 @@ func compErrFacts() map[string]bool {
 		}
 		for _, c := range s.Body.List {
 			cc := c.(*ast.CaseClause)
-			tgt := gotoTarget(cc.Body)
+			body, setsLock := cc.Body, false
+			if len(body) == 2 && stmtText(body[0]) == "db.compWriteLocking = true" {
+				// `case err == ErrReadOnly: db.compWriteLocking = true; goto hasperr` (since 832d000)
+				body, setsLock = body[1:], true
+			}
+			tgt := gotoTarget(body)
+			if setsLock && !(len(cc.List) == 1 && stmtText(cc.List[0]) == "err == ErrReadOnly" && tgt == "hasperr") {
+				shape = false
+			}
 			if cc.List == nil { // default
 				switch {
 				case label == "noerr" && tgt == "haserr":
@@ -685,6 +693,7 @@ func compErrFacts() map[string]bool {
 				case "err == ErrReadOnly":
 					if tgt == "hasperr" {
 						f[label+"RO"] = true
+						f[label+"ROSetsLock"] = setsLock
 					} else {
 						shape = false
 					}
@@ -789,7 +798,15 @@ func bodyTexts(body []ast.Stmt) string {
 //   compactionTransact: select {compErrSetC <- err | perr := <-compPerErrC: if err != nil { exit } | <-closeC: exit}, then
 //   `if err == nil { return }` and `if errors.IsCorrupted(err) { exit }`.
 func callersOfCompErr() bool {
-	ok := true
+	ok, _, _, _ := callersOfCompErrFacts()
+	return ok
+}
+
+// callersOfCompErrFacts: besides the shape, three facts about SetReadOnly: it sets compWriteLocking itself when it
+// has taken the token; the compPerErrC arm of its second select gives its token back (`<-db.writeLockC`) before
+// returning; the closeC arm of its second select takes a token out of writeLockC before returning.
+func callersOfCompErrFacts() (ok, srSetsLock, srPerErrGivesBack, srCloseGivesBack bool) {
+	ok = true
 	var sels []*ast.SelectStmt
 	fd := findFunc("leveldb/db_write.go", "DB.SetReadOnly")
 	if fd == nil {
@@ -801,7 +818,7 @@ func callersOfCompErr() bool {
 		}
 	}
 	if len(sels) != 2 || len(sels[0].Body.List) != 3 || len(sels[1].Body.List) != 3 {
-		return false
+		return false, false, false, false
 	}
 	chk := func(sel *ast.SelectStmt, comm, body string) {
 		cc := commOf(sel, comm)
@@ -809,13 +826,41 @@ func callersOfCompErr() bool {
 			ok = false
 		}
 	}
-	chk(sels[0], "db.writeLockC <- struct{}{}", "db.compWriteLocking = true")
+	if cc := commOf(sels[0], "db.writeLockC <- struct{}{}"); cc == nil {
+		ok = false
+	} else {
+		switch bodyTexts(cc.Body) {
+		case "db.compWriteLocking = true":
+			srSetsLock = true
+		case "":
+		default:
+			ok = false
+		}
+	}
 	chk(sels[0], "err := <-db.compPerErrC", "return err")
 	chk(sels[0], "<-db.closeC", "return ErrClosed")
 	chk(sels[1], "db.compErrSetC <- ErrReadOnly", "atomic.StoreUint32(&db.compReadOnly, 1)")
-	chk(sels[1], "perr := <-db.compPerErrC", "return perr")
-	if cc := commOf(sels[1], "<-db.closeC"); cc == nil || len(cc.Body) == 0 || stmtText(cc.Body[len(cc.Body)-1]) != "return ErrClosed" {
+	if cc := commOf(sels[1], "perr := <-db.compPerErrC"); cc == nil {
 		ok = false
+	} else {
+		switch bodyTexts(cc.Body) {
+		case "<-db.writeLockC; return perr":
+			srPerErrGivesBack = true
+		case "return perr":
+		default:
+			ok = false
+		}
+	}
+	if cc := commOf(sels[1], "<-db.closeC"); cc == nil {
+		ok = false
+	} else {
+		switch bodyTexts(cc.Body) {
+		case "<-db.writeLockC; return ErrClosed", "select { case <-db.writeLockC: default: }; return ErrClosed":
+			srCloseGivesBack = true
+		case "return ErrClosed":
+		default:
+			ok = false
+		}
 	}
 	// compactionTransact
 	fd = findFunc("leveldb/db_compaction.go", "DB.compactionTransact")
@@ -829,7 +874,7 @@ func callersOfCompErr() bool {
 		}
 	}
 	if loop == nil {
-		return false
+		return false, srSetsLock, srPerErrGivesBack, srCloseGivesBack
 	}
 	var sel *ast.SelectStmt
 	seenNil, seenCorrupt := false, false
@@ -848,7 +893,7 @@ func callersOfCompErr() bool {
 		}
 	}
 	if sel == nil || len(sel.Body.List) != 3 || !seenNil || !seenCorrupt {
-		return false
+		return false, srSetsLock, srPerErrGivesBack, srCloseGivesBack
 	}
 	chk(sel, "db.compErrSetC <- err", "")
 	chk(sel, "<-db.closeC", "db.compactionExitTransact()")
@@ -856,7 +901,7 @@ func callersOfCompErr() bool {
 		!strings.HasPrefix(stmtText(cc.Body[0]), "if err != nil {") || !strings.HasSuffix(stmtText(cc.Body[0]), "db.compactionExitTransact() }") {
 		ok = false
 	}
-	return ok
+	return ok, srSetsLock, srPerErrGivesBack, srCloseGivesBack
 }
 
 // funcText is the printed body of a function.
@@ -868,6 +913,52 @@ func funcText(rel, fn string) string {
 	var buf bytes.Buffer
 	printer.Fprint(&buf, token.NewFileSet(), fd.Body)
 	return buf.String()
+}
+
+// callsInsideFuncLitArg: in fn, every call whose callee text ends with "."+callee is inside a func literal that
+// is an argument of a call whose callee text is outer; returns (number of such calls inside, number outside).
+func callsInsideFuncLitArg(rel, fn, outer, callee string) (inside, outside int) {
+	fd := findFunc(rel, fn)
+	if fd == nil {
+		fatal("function %s not found in %s", fn, rel)
+	}
+	type span struct{ lo, hi token.Pos }
+	var lits []span
+	ast.Inspect(fd.Body, func(nd ast.Node) bool {
+		ce, ok := nd.(*ast.CallExpr)
+		if !ok || exprString(ce.Fun) != outer {
+			return true
+		}
+		for _, a := range ce.Args {
+			if fl, ok := a.(*ast.FuncLit); ok {
+				lits = append(lits, span{fl.Pos(), fl.End()})
+			}
+		}
+		return true
+	})
+	ast.Inspect(fd.Body, func(nd ast.Node) bool {
+		ce, ok := nd.(*ast.CallExpr)
+		if !ok {
+			return true
+		}
+		t := exprString(ce.Fun)
+		if t != callee && !strings.HasSuffix(t, "."+callee) {
+			return true
+		}
+		in := false
+		for _, sp := range lits {
+			if ce.Pos() >= sp.lo && ce.End() <= sp.hi {
+				in = true
+			}
+		}
+		if in {
+			inside++
+		} else {
+			outside++
+		}
+		return true
+	})
+	return
 }
 
 func (o *out) boolean(name string, v bool, doc string) {
@@ -1041,7 +1132,7 @@ func main() {
 	o.boolean("roCompactionParks", strings.Count(funcText("leveldb/db_compaction.go", "DB.tCompaction"), "atomic.LoadUint32(&db.compReadOnly)") >= 2 &&
 		strings.Contains(funcText("leveldb/db_write.go", "DB.SetReadOnly"), "atomic.StoreUint32(&db.compReadOnly, 1)"),
 		"`tCompaction` consults the read-only flag set by `SetReadOnly` at the top of its loop and before executing a command")
-	o.boolean("lkSetReadOnlyReleasesOnClose", countStmts("leveldb/db_write.go", "DB.SetReadOnly", "<-db.writeLockC") >= 1,
+	o.boolean("lkSetReadOnlyReleasesOnClose", func() bool { _, _, _, c := callersOfCompErrFacts(); return c }(),
 		"`SetReadOnly` gives the write-lock token back when it gives up because the DB is closing")
 
 	// the goroutine compactionError as a state machine (C09/C18, Model/CompErr.lean `codeM`)
@@ -1052,6 +1143,7 @@ func main() {
 			{"ceNoerrRecv", "noerrRecv", "`noerr:` has `case err = <-db.compErrSetC`"},
 			{"ceNoerrNil", "noerrNil", "`noerr:` `case err == nil:` stays in `noerr`"},
 			{"ceNoerrRO", "noerrRO", "`noerr:` `err == ErrReadOnly` leads to `hasperr`"},
+			{"ceNoerrROSetsLock", "noerrROSetsLock", "`noerr:` the `err == ErrReadOnly` case does `db.compWriteLocking = true` before `goto hasperr`"},
 			{"ceNoerrCorrupt", "noerrCorrupt", "`noerr:` `errors.IsCorrupted(err)` leads to `hasperr`"},
 			{"ceNoerrOther", "noerrOther", "`noerr:` `default: goto haserr`"},
 			{"ceNoerrClose", "noerrClose", "`noerr:` has `case <-db.closeC: return`"},
@@ -1059,6 +1151,7 @@ func main() {
 			{"ceHaserrRecv", "haserrRecv", "`haserr:` has `case err = <-db.compErrSetC`"},
 			{"ceHaserrNil", "haserrNil", "`haserr:` `case err == nil: goto noerr`"},
 			{"ceHaserrRO", "haserrRO", "`haserr:` `err == ErrReadOnly` leads to `hasperr`"},
+			{"ceHaserrROSetsLock", "haserrROSetsLock", "`haserr:` the `err == ErrReadOnly` case does `db.compWriteLocking = true` before `goto hasperr`"},
 			{"ceHaserrCorrupt", "haserrCorrupt", "`haserr:` `errors.IsCorrupted(err)` leads to `hasperr`"},
 			{"ceHaserrClose", "haserrClose", "`haserr:` has `case <-db.closeC: return`"},
 			{"ceHasperrErr", "hasperrErr", "`hasperr:` has `case db.compErrC <- err`"},
@@ -1071,8 +1164,15 @@ func main() {
 			o.boolean(c.lean, ce[c.key], c.doc)
 		}
 	}
+	{
+		_, a, b, _ := callersOfCompErrFacts()
+		o.boolean("lkSetReadOnlySetsWriteLocking", a,
+			"`SetReadOnly` sets `db.compWriteLocking` itself right after it has taken the write-lock token (false since 832d000: `compactionError` sets it when it takes `ErrReadOnly`)")
+		o.boolean("lkSetReadOnlyPerErrGivesBack", b,
+			"the `compPerErrC` arm of `SetReadOnly`'s second `select` gives its token back (`<-db.writeLockC`) before it returns the error")
+	}
 	o.boolean("ceCallersAsModelled", callersOfCompErr(),
-		"`SetReadOnly` (two `select`s: take the write lock and set `compWriteLocking`, then post `ErrReadOnly` and set `compReadOnly`, with `compPerErrC` / `closeC` alternatives) and `compactionTransact` (post the result on `compErrSetC`, or take `compPerErrC` and exit if the result was an error, or exit on `closeC`; return on nil, exit on corruption) talk to `compactionError` as modelled")
+		"`SetReadOnly` (two `select`s: take the write lock and set `compWriteLocking`, then post `ErrReadOnly` and set `compReadOnly`, with `compPerErrC` / `closeC` alternatives) and `compactionTransact` (post the result on `compErrSetC`, or take `compPerErrC` and exit if the result was an error, or exit on `closeC`; return on nil, exit on corruption) talk to `compactionError` as modelled (either shape of `SetReadOnly`: before or since 832d000)")
 
 	{
 		sharedDB := []string{"nodeData", "kvData", "findGE", "findLT", "findLast", "p.n", "p.kvSize", "p.maxHeight", "prevNode", "p.rnd"}
@@ -1126,6 +1226,33 @@ func main() {
 		return i >= 0 && j >= 0 && i < j && strings.Count(t, "db.addSeq(") == 2
 	}(),
 		"`writeLocked` inserts the group into the buffer before it publishes the new sequence number")
+
+	// order facts behind the file-removal model (C07: Model/TableRemove.lean, Model/Session.lean)
+	o.boolean("removeReusesInsideDelete", func() bool {
+		in, out := callsInsideFuncLitArg("leveldb/table.go", "tOps.remove", "t.fileCache.Delete", "reuseFileNum")
+		rin, rout := callsInsideFuncLitArg("leveldb/table.go", "tOps.remove", "t.fileCache.Delete", "Remove")
+		return in == 1 && out == 0 && rin == 1 && rout == 0
+	}(),
+		"in `tOps.remove` both `t.s.stor.Remove(fd)` and `t.s.reuseFileNum(fd.Num)` are called (once each) inside the func literal passed to `t.fileCache.Delete`, i.e. when the last cache handle of the table is gone, and nowhere else")
+	o.boolean("closeTopsBeforeFinalSetVersion",
+		topStmtBefore("leveldb/session.go", "session.close", "s.tops.close()",
+			"s.setVersion(nil, &version{s: s, closing: true, id: s.ntVersionID})"),
+		"`session.close` closes the table cache (`s.tops.close()`) before it installs the closing version, which releases the current one")
+	o.boolean("cacheDeleteClosedNoDelFunc",
+		ifBodyHas("leveldb/cache/cache.go", "Cache.Delete", "r.closed", "return false") &&
+			textBefore("leveldb/cache/cache.go", "Cache.Delete", "if r.closed {", "delFunc"),
+		"`Cache.Delete` returns (`if r.closed { return false }`) before it touches `delFunc` when the cache is closed")
+	o.boolean("setVersionAddedOnce",
+		ifBodyHas("leveldb/session_util.go", "session.setVersion", "seen[t.num]; ok", "continue") &&
+			textBefore("leveldb/session_util.go", "session.setVersion", "if _, ok := seen[t.num]; ok {", "added = append(added, t.num)") &&
+			countStmts("leveldb/session_util.go", "session.setVersion", "added = append(added, t.num)") == 1,
+		"`setVersion` appends a table number to the delta's `added` only after the `seen` check (each table once: the D13 repair)")
+	o.boolean("commitRotationFreshRecord",
+		strings.Contains(funcText("leveldb/session.go", "session.commit"), "err = s.newManifest(nr, nv)") &&
+			strings.Count(funcText("leveldb/session.go", "session.commit"), "s.newManifest(r, nv)") == 1 &&
+			textBefore("leveldb/session.go", "session.commit", "if s.manifest == nil {", "s.newManifest(r, nv)") &&
+			textBefore("leveldb/session.go", "session.commit", "s.newManifest(r, nv)", "} else if"),
+		"`session.commit` hands the committing record `r` to `newManifest` only when `s.manifest == nil`; a rotation passes a fresh record `nr`")
 
 	o.b.WriteString("\nend GoLevel.Gen\n")
 
